@@ -211,7 +211,9 @@ def math_filter(_filter: FilterT) -> FilterT:
 
         try:
             return _filter(val, *args, **kwargs)
-        except TypeError as err:
+        except (TypeError, ValueError, ArithmeticError) as err:
+            # ValueError/OverflowError: NaN or infinity given to ceil, floor, round or int
+            # ArithmeticError: decimal.InvalidOperation, int too large for a float
             raise FilterArgumentError(err, token=None) from err
 
     return wrapper
